@@ -181,6 +181,11 @@ def record(cfg: dict, seed: int, terms: dict) -> sweep.SweepLog:
     fp = mp.from_table(pvt_t, kr_t, rho, phi, sw, p_i)
     sub = np.asarray(fp.pvt_props["pseudopressure"], float)
     col = np.asarray(fp.pvt_props["m-scaled"], float)
+    if isinstance(pvt_t, dict):
+        # the caller goes on with its own buffers (a grid study re-using one pressure array, a shift to absolute pressure): the
+        # fluid that was built keeps answering for the table it was built from
+        pvt_t["pressure"] += 15 if pvt_t["pressure"].dtype.kind == "i" else 14.7
+        pvt_t["So"] *= 0.5
     meta = {"what": f"{cfg['family']} table #{i}", "cfg": cfg, "table": tab["meta"], "kr": kr_meta, "rho": rho,
             "phi": phi, "a": a, "p_i": p_i, "rows": n, "integer_pressure_column": as_int}
     log = sweep.SweepLog()
